@@ -125,6 +125,10 @@ def c02(trace, case, end):
             if m < o['submit_minute'] or (m == o['submit_minute'] and not o['reaction'] and not fast):
                 probs.append(('fill-before-submission', {'sim': simname}, 'order %d submitted at the strategy step of minute %d executed in minute %d'
                               % (o['oid'], o['submit_minute'], m)))
+            elif o.get('final_now') is not None and o['final_now'] < o['submit_now']:
+                # by the session clock (an order placed from another route's fill handler carries that route's time)
+                probs.append(('fill-before-submission', {'sim': simname, 'by_clock': True}, 'order %d was submitted at %r and executed at the earlier time %r'
+                              % (o['oid'], o['submit_now'], o['final_now'])))
         # survived phases
         for first, last, mlo, mhi in ph.get(sym, []):
             if o['submit_idx'] > first:
